@@ -30,7 +30,7 @@ def gen_cases(rng, tier):
         S = [{'k': rng.pick(kpool), 'k2': rng.pick(['p', 'q']), 'v': rng.pick([None, 0, 1, 2, 5, -3, 8]),
               'w': rng.pick([None, 'x', 'y', 'zz'])} for _ in range(ns)]
         T = [{'k': rng.pick(kpool + [9]), 'k2': rng.pick(['p', 'q']), 'x': rng.pick([None, 7, 70])} for _ in range(nt)]
-        shape = rng.randint(0, 5)
+        shape = rng.randint(0, 6)
         if shape <= 1:
             sk = tk = [['f', 'k']]
         elif shape == 2:
@@ -39,6 +39,10 @@ def gen_cases(rng, tier):
             sk = tk = [['l', 'K-'], ['f', 'k'], ['l', '/']]
         elif shape == 4:
             sk = tk = [['f', '#']]
+        elif shape == 6:
+            # the two sides name their key fields in different orders: the fields of a key are paired by position
+            sk = [['f', 'k'], ['l', ':'], ['f', 'k2']]
+            tk = [['f', 'k2'], ['l', ':'], ['f', 'k']]
         else:
             sk = [['f', 'k']]
             tk = [['l', ''], ['f', 'k']]
@@ -62,7 +66,7 @@ def gen_cases(rng, tier):
                 g = rng.pick(['sum', 'max', 'min', 'first', 'last', 'any'])
                 srcf = 'v'
             fields.append([t, srcf, g])
-        star = rng.chance(0.15)
+        star = rng.chance(0.15) and shape != 6      # (a wildcard would aggregate the key fields themselves, which the positional pairing then overwrites)
         c = {'kind': 'join', 'S': rows_enc(S), 'T': rows_enc(T), 'skey': sk, 'tkey': tk, 'listform': listform,
              'fields': fields, 'star': rng.pick(['any', 'last', 'first']) if star else None,
              'mode': rng.pick(['inner', 'half-outer', 'half-outer', 'full-outer']),
@@ -248,7 +252,15 @@ def oracle(case, out):
             if f not in a and not (matched and case['mode'] == 'full-outer' and f in [p[1] for p in case['tkey'] if p[0] == 'f']):
                 if f not in r or r[f] != t[f]:
                     return 'join(%s): target field %r changed from %r to %r' % (case['mode'], f, t[f], r.get(f))
+    skf = [p[1] for p in case['skey'] if p[0] == 'f' and p[1] != '#']
+    tkf = [p[1] for p in case['tkey'] if p[0] == 'f' and p[1] != '#']
     for k, r in zip(extras, got[len(exp):]):
+        # the key fields of a row added for an unmatched source key hold that key's values, paired by position
+        if len(skf) == len(tkf) and skf:
+            srcs = [s_ for s_, kk in zip(S, skeys) if kk == k]
+            if not any(all(tf in r and r[tf] == s_.get(sf) for sf, tf in zip(skf, tkf)) for s_ in srcs):
+                return 'join(full-outer): the row for the unmatched source key %r carries key fields %r, the source rows have %r' % (
+                    k, dict((tf, r.get(tf)) for tf in tkf), [dict((sf, s_.get(sf)) for sf in skf) for s_ in srcs][:2])
         a, _ = aggs_for(k)
         for f in a:
             if f not in r or not val_ok(a[f], r[f]):
